@@ -390,8 +390,34 @@ struct RingWorld : World {
 				for (size_t j = 0; j < d.size(); ++j) if (v.begin()[j] != d[j]) fail("read", "C++ queue peek byte %zu is %02x, stored %02x", j, v.begin()[j], d[j]);
 			}
 			if (cq->_d.len != d.size()) fail("content", "C++ queue holds %zu bytes, a deque would hold %zu", cq->_d.len, d.size());
+			if (i == 6 && (op.c & 32)) {
+				// a copy of the queue is a queue of its own: what is taken from it or put into it, and its going away, leave the first one as it is
+				io::queue *cp; { Sut s; cp = new io::queue(*cq); }
+				span<const uint8_t> v0; { Sut s; v0 = cp->peek(0); }
+				if ((size_t) v0.size() != d.size()) fail("content", "a copy of a C++ queue of %zu bytes shows %zu bytes", d.size(), (size_t) v0.size());
+				for (size_t j = 0; j < d.size(); ++j) if (v0.begin()[j] != d[j]) fail("content", "a copy of a C++ queue differs from it at byte %zu", j);
+				uint8_t junk[4] = {0xF1, 0xF2, 0xF3, 0xF4}; size_t take = std::min<size_t>(d.size(), 3);
+				{ Sut s; if (take) cp->pop(0, take); cp->push(junk, 4); cp->unshift(junk, 2); }
+				{ Sut s; delete cp; }
+				span<const uint8_t> v; { Sut s; v = cq->peek(0); }
+				if ((size_t) v.size() != d.size()) fail("content", "after a copy of it was changed and destroyed the C++ queue shows %zu bytes, %zu stored", (size_t) v.size(), d.size());
+				for (size_t j = 0; j < d.size(); ++j) if (v.begin()[j] != d[j]) fail("content", "after a copy of it was changed and destroyed the C++ queue reads %02x at byte %zu, stored %02x", v.begin()[j], j, d[j]);
+				log.ev("  cxx copy changed and destroyed (%zu bytes stored)", d.size()); st.hit("probe:cxx_queue_copied");
+			}
 		}
 		{ Sut s; delete cq; }
+		if (op.c & 64) {
+			// typed pipe: several handles on one counted queue; a handle that goes away takes nothing with it while another one is left
+			pipe<int> *a; { Sut s; a = new pipe<int>(); }
+			int n = 1 + (int) (op.c % 5); bool okp = true; for (int k = 0; k < n; ++k) { Sut s; okp = a->push(k + 1) && okp; }
+			if (okp) {
+				{ reference<pipe<int>::instance> r; { Sut s; r = a->ref(); } pipe<int> *b; { Sut s; b = new pipe<int>(r.detach()); } { Sut s; delete b; } }
+				int got = 0, val = 0; while (got <= n) { bool m; { Sut s; m = a->shift(&val); } if (!m) break; ++got; if (val != got) fail("content", "typed pipe element %d reads %d", got, val); }
+				if (got != n) fail("content", "a typed pipe of %d elements holds %d after a second handle on its queue went away", n, got);
+				st.hit("probe:cxx_pipe_second_handle");
+			}
+			{ Sut s; delete a; }
+		}
 	}
 };
 
